@@ -50,7 +50,7 @@ def dispatchC11 : Dispatch := fun op args =>
   -- ---- inversion ------------------------------------------------------------------------------
   | "c11.u.inv_mod", [n, a, m] =>
     match n.toNat?, hexToNat? a, hexToNat? m with
-    | some n, some a, some m => some s!"{cls (invModD (64 * n) a m)} ;; {doc (.uintInvMod (64 * n) m)}"
+    | some n, some _, some m => some s!"{cls (invModExpectD (64 * n) m)} ;; {doc (.uintInvMod (64 * n) m)}"
     | _, _, _ => badArgs
   | "c11.u.inv_mod2k", [n, _, k] =>
     match n.toNat?, k.toNat? with
@@ -58,10 +58,8 @@ def dispatchC11 : Dispatch := fun op args =>
     | _, _ => badArgs
   | "c11.u.inv_mod2k_vartime", [n, a, k] =>
     match n.toNat?, hexToNat? a, k.toNat? with
-    | some n, some a, some k =>
-      -- the loop runs `k` rounds and panics in round `64 n`: decide the class without running 2^32 rounds
-      let kk := if k > 64 * n then 64 * n + 1 else k
-      some s!"{cls (invMod2kVartimeD (64 * n) a kk)} ;; {doc (.uintInvMod2k (64 * n) k)}"
+    | some n, some _, some k =>
+      some s!"{cls (invMod2kVartimeD (64 * n) k)} ;; {doc (.uintInvMod2k (64 * n) k)}"
     | _, _, _ => badArgs
   | "c11.b.inv_mod", [na, _, nm, _] =>
     match na.toNat?, nm.toNat? with
